@@ -137,6 +137,11 @@ func copyFile(src, dst string) {
 
 // the shim's "dnsmasq restarts now": record what it reads
 func shimRestart() {
+	// fault injection: the next "restart dnsmasq" command fails, once, without restarting anything
+	if _, err := os.Stat("/shim/failrestart"); err == nil {
+		_ = os.Remove("/shim/failrestart")
+		os.Exit(1)
+	}
 	cp, _ := os.ReadFile("/shim/confpath")
 	copyFile(strings.TrimSpace(string(cp)), "/shim/loaded_conf")
 	copyFile("/shim/uci_c", "/shim/loaded_uci")
@@ -507,6 +512,7 @@ type lifecycle struct {
 	report, cache bool
 	cacheStr      string
 	restore       bool
+	fault         bool
 }
 
 func parseScript(s string) []lifecycle {
@@ -515,7 +521,7 @@ func parseScript(s string) []lifecycle {
 		if len(t) < 4 {
 			continue
 		}
-		lc := lifecycle{report: t[0] == '1', cache: t[1] == '1', restore: t[3] == 'R'}
+		lc := lifecycle{report: t[0] == '1', cache: t[1] == '1', restore: t[3] == 'R', fault: len(t) >= 5 && t[4] == 'f'}
 		switch t[2] {
 		case 'z':
 			lc.cacheStr = "0"
@@ -596,7 +602,11 @@ func routerChild(args []string) error {
 		c := config.Config{ReportClientInfo: lc.report, CacheSize: lc.cacheStr, Listens: []string{"untouched:1"}}
 		err := r.Configure(&c)
 		outs = append(outs, "c:"+e2s(err)+":"+listensTag(c.Listens)+":"+observeJail(fw, variant))
+		if lc.fault {
+			_ = os.WriteFile("/shim/failrestart", []byte("1"), 0644)
+		}
 		err = r.Setup()
+		_ = os.Remove("/shim/failrestart")
 		outs = append(outs, "s:"+e2s(err)+":-:"+observeJail(fw, variant))
 		if lc.restore {
 			err = r.Restore()
@@ -740,7 +750,11 @@ func genRouterCase(r *rng, fw string) (e *rEnv, script string, pristine bool) {
 		if r.coin(25) && i < n-1 {
 			end = "C"
 		}
-		parts = append(parts, b2s(rep)+b2s(cache)+string(cs)+end)
+		flt := ""
+		if end == "R" && r.coin(12) {
+			flt = "f" // the restart of dnsmasq during setup fails once; the stop that follows must still undo everything
+		}
+		parts = append(parts, b2s(rep)+b2s(cache)+string(cs)+end+flt)
 	}
 	return e, strings.Join(parts, ","), pristine
 }
